@@ -304,6 +304,10 @@ fn parse_cron_part(
         if part == "*" {
             values.extend(min..=max);
         } else if let Some(step) = part.strip_prefix("*/") {
+            // `u8::from_str` accepts a leading plus sign
+            if !step.chars().all(|char| char.is_ascii_digit()) {
+                return Err(format!("Can't parse step value to u8: {}", step));
+            }
             let step: u8 = step
                 .parse()
                 .map_err(|_| format!("Can't parse step value to u8: {}", step))?;
